@@ -29,4 +29,9 @@ func TestVerifSys(t *testing.T) {
 	for i := 0; i < n; i++ {
 		run(Random(r.Rng, true))
 	}
+	// histories with delegated phases and the real same-cluster ObjectSetPhase controller
+	n = r.Pick(2000, 30000)
+	for i := 0; i < n; i++ {
+		run(Random(r.Rng, false))
+	}
 }
